@@ -123,7 +123,8 @@ Arity(name) ==
     [] name = "set" -> <<2, -1>>
     [] name \in {"funcall", "apply", "error", "in-package"} -> <<1, -1>>
     [] name = "load-string" -> <<1, 3>>
-    [] name \in {"rethrow", "boom", "capture"} -> <<0, 0>>
+    [] name \in {"rethrow", "capture"} -> <<0, 0>>
+    [] name = "boom" -> <<0, -1>>
     [] name \in {"let", "let*", "flet", "labels", "lambda", "handler-bind", "dotimes", "thread-first", "thread-last", "macrolet"} -> <<1, -1>>
     [] name \in {"defun", "defmacro", "defconst"} -> <<2, -1>>
     [] name \in {"curry-function", "assert"} -> <<1, -1>>
